@@ -30,6 +30,7 @@ BUILT = {
  "C13": ("exploration", "Generated claim histories (start, waits around the veto window, contending claims) interleaved with send attempts through every entry point; oracle = known loss events + public CA state at each call, and a trace monitor over every emitted frame.", "5/C13"),
  "C14": ("exploration", "Generated responder configurations in every claim state with an exhaustive sweep over all 256 destinations for boundary/random PGNs incl. the address-claim PGN; reference dispatch (callbacks exactly once on owning operational CAs, claim answers, request encoding).", "5/C14"),
  "C15": ("exploration", "PGN space (2^18) enumerated in both tiers, identifier space (2^29) enumerated in the thorough tier (stride sample + boundaries in quick), NAME space covered by exhaustive per-field sweeps, single bits, boundary tuples and Hypothesis draws, all against an independent reference codec.", "5/C15"),
+ "C16": ("exploration", "DTC (all 2^19 SPN), lamp (all 5^4) and DM22 codecs enumerated against the J1939-73 bit layout; generated end-to-end DM1 histories (1..400 codes, single frame / BAM / FD multi-PG / FD BAM, several cycles, stop_send then silence) on both layers.", "5/C16"),
 }
 
 
